@@ -67,7 +67,7 @@ def oracle(res, regs, data, addr, status, after, tag):
 def run(ctx, res):
     rng = ctx.rng
     res.rule = ('all (start,end) with both ends within +-2 of the six region boundaries, plus seeded random (addr,len), '
-                'random data and prior contents, plus write sequences; distinct non-trivial = distinct '
+                'random data and prior contents, plus write sequences interleaved with section-object replacements; distinct non-trivial = distinct '
                 '(start class, end class) pairs with len>0, class = boundary index and offset or region interior')
     cases = gen_cases(ctx)
     lines = []
@@ -94,6 +94,18 @@ def run(ctx, res):
         f = bytearray(flat(regs))
         hist = []
         for _ in range(rng.randrange(2, 9)):
+            if rng.random() < 0.3:
+                # between two writes a region is given a new section object, the way `p8tool build` installs a section
+                # taken from another cart (setattr(result, section, getattr(source, section))): later writes go to it
+                nm = rng.choice(ORDER)
+                newdata = U.rand_bytes(rng, dict(U.REGION_SIZES)[nm])
+                other = U.make_game(regions={nm: newdata})
+                setattr(g, nm, getattr(other, nm))
+                off = BOUNDS[ORDER.index(nm)]
+                f[off:off + len(newdata)] = newdata
+                hist.append({'replace_section': nm, 'data': hx(newdata)})
+                res.count('sequence-section-replacements')
+                continue
             addr = rng.choice([rng.randrange(0x4300), rng.choice(BOUNDS[:-1]) + rng.randrange(-2, 3)])
             addr = max(addr, 0)
             ln = min(rng.choice([1, 2, 5, 300, 0x1001]), 0x4300 - addr)
